@@ -669,6 +669,109 @@ def o_c16(meta, ans, ctx):
     return None
 
 
+class ProbeSpec(CaseSpec):
+    """line-protocol cases plus probe programs that are built (and, when they compile, run)"""
+    prefix = ''
+    reject_markers = ()
+
+    def judge_run(self, name, e, g):
+        """-> (failure text or None) for a probe that compiled and ran"""
+        if g['rc'] != 0: return 'probe-failed: exit status %s: %s' % (g['rc'], (g.get('stderr') or '')[-300:])
+        return None
+
+    def run(self, prop, tier, seed, replay=None):
+        res = CaseSpec.run(self, prop, tier, seed, replay)
+        import probes
+        expect, got = probes.run_probe_bins(self.prefix)
+        samples = []
+        for name in sorted(got):
+            e, g = expect[name], got[name]
+            outcome = 'rejected' if not g['compiled'] else ('ran rc=%s' % g['rc'])
+            samples.append({'probe': name, 'path': e['path'], 'expected': e['expect'], 'outcome': outcome, 'codes': sorted(set(g['codes'])),
+                            'output': g['stdout'][:1500]})
+            sig = {'op': 'probe', 'probe': name, 'outcome': outcome.split(' ')[0], 'type_shape': '', 'rust_type': ''}
+            detail = {'probe': name, 'source': 'probes/src/bin/%s.rs' % name, 'path': e['path'], 'expected': e['expect'],
+                      'outcome': outcome, 'codes': sorted(set(g['codes'])), 'messages': g['messages'][:4], 'output': g['stdout'][:1500]}
+            if g.get('dep_failed'):
+                res['disagreements'].append((dict(sig, kind='probe-build'), detail))
+            elif e['expect'] == 'rejected' and g['compiled']:
+                why = self.judge_accepted(name, e, g)
+                if why:
+                    detail['why'] = why
+                    res['failures'].append((dict(sig, clause=why.split(':')[0]), detail))
+            elif e['expect'] == 'rejected':
+                if self.reject_markers and not any(mk in msg for mk in self.reject_markers for msg in g['messages']):
+                    res['disagreements'].append((dict(sig, kind='probe-rejected-for-another-reason'), detail))
+            elif e['expect'] == 'runs' and not g['compiled']:
+                detail['why'] = 'compile: a program of the supported grammar no longer compiles'
+                res['failures'].append((dict(sig, clause='compile'), detail))
+            elif e['expect'] == 'runs':
+                why = self.judge_run(name, e, g)
+                if why:
+                    detail['why'] = why
+                    res['failures'].append((dict(sig, clause=why.split(':')[0]), detail))
+        res['coverage']['programs'] = len(got)
+        res['coverage']['probe_results'] = samples
+        return res
+
+    def judge_accepted(self, name, e, g):
+        return 'accepted: a program expected to be rejected compiles'
+
+
+class C05Spec(ProbeSpec):
+    prefix = 'c05_'
+
+
+def parse_attempts(stdout):
+    out = []
+    for l in stdout.splitlines():
+        p = l.split(' ')
+        if p[0] != 'attempt': continue
+        kv = dict(x.split('=', 1) for x in p[2:] if '=' in x)
+        out.append((p[1], kv.get('panicked') == 'true', int(kv.get('extra', '0')), int(kv.get('allowed', '0'))))
+    return out
+
+
+class C17Spec(ProbeSpec):
+    prefix = 'c17_'
+    reject_markers = ('ZeroCopy', 'CopyType', 'proc-macro derive panicked', 'declared as zero copy', 'declared as both')
+
+    def judge_attempts(self, name, g, must_panic):
+        at = parse_attempts(g['stdout'])
+        if g['rc'] != 0 or not at: return 'probe-failed: exit status %s, %d attempts reported' % (g['rc'], len(at))
+        for what, panicked, extra, allowed in at:
+            if must_panic and not panicked:
+                return 'written: %s of a type wrongly declared zero-copy was serialized (%d bytes after the header)' % (what, extra)
+            if must_panic and extra > allowed:
+                return 'partial: %s: %d bytes after the header were written before the panic (%d belong to the enclosing container)' % (what, extra, allowed)
+            if not must_panic and panicked:
+                return 'control: a correctly declared zero-copy type is refused'
+        return None
+
+    def judge_run(self, name, e, g):
+        return self.judge_attempts(name, g, must_panic=(name != 'c17_ok'))
+
+    def judge_accepted(self, name, e, g):
+        # rejected at compile time *or, failing that*, panics before writing any byte of the value
+        if not g['ran']: return 'accepted: compiles and could not be run'
+        at = parse_attempts(g['stdout'])
+        if not at:
+            return 'accepted: a wrongly declared zero-copy type compiles and its serialization is not refused at run time (exit status %s)' % g['rc']
+        return self.judge_attempts(name, g, must_panic=True)
+
+
+def o_c17(meta, ans, ctx):
+    if meta.get('kind') != 'zcc':
+        return None
+    p = ans.split(' ')
+    if len(p) != 3 or p[0] != 'zcc': return 'shape: ' + ans[:60]
+    t = ctx['u'].types[meta['ti']]
+    # the constant must be false for every type that owns heap memory (independent of the model)
+    if p[1] == 'true' and meta['heap']:
+        return 'const: IS_ZERO_COPY is true for %s, which owns heap memory or is not marked zero-copy' % t.rust()
+    return None
+
+
 def split_generic_args(name):
     """'path<a, b<c>, [d; 2]>' -> ('path', ['a', 'b<c>', '[d; 2]'])"""
     k = name.find('<')
@@ -727,7 +830,8 @@ def o_c05(meta, ans, ctx):
 
 
 SPECS = {
-    'C05': CaseSpec(o_c05, 'every derived type of the generated universe (definitions drawn from the grammar: named / tuple / unit structs, unit / tuple / struct variants, type / const / defaulted parameters, phantom parameters, bounds, where-clauses, zero / deep / no copy attribute, repr attributes, nesting of earlier definitions; several instantiations each): the program containing them must compile, the concrete DeserType (core::any::type_name) must be the documented substitution, the model derive of the definition must be the registered type, values round-trip in both modes.'),
+ 'C17': C17Spec(o_c17, 'IS_ZERO_COPY and ZERO_COPY_MISMATCH of every type of the universe against the model constants; 15 probe programs obtained from a valid zero-copy definition by replacing one field (vector, string, boxed slice, option, array of vectors, deep structure, &\'static [u8], &\'static str, unbounded parameter), in structs, tuple structs and enums, dropping repr(C), repr(align) only, both attributes: each must be rejected by the ZeroCopy bound or the macro; a hand-written type marked zero-copy with IS_ZERO_COPY = false serialized alone and inside 17 containers: each attempt must panic with no byte of the value written; a control that a valid definition is written.'),
+    'C05': C05Spec(o_c05, 'every derived type of the generated universe (definitions drawn from the grammar: named / tuple / unit structs, unit / tuple / struct variants, type / const / defaulted parameters, phantom parameters, bounds, where-clauses, zero / deep / no copy attribute, repr attributes, nesting of earlier definitions; several instantiations each): the program containing them must compile, the concrete DeserType (core::any::type_name) must be the documented substitution, the model derive of the definition must be the registered type, values round-trip in both modes; 7 accept programs for grammar features outside the generator (where-clause bounds, several bounds, defaulted parameters, visibilities, raw identifiers, doc comments, parameters passed to other derived types, unit / tuple structs) built and run.'),
     'C01': CaseSpec(o_c01, 'serialize each generated value, deserialize_full the bytes; generated types x boundary-biased values.'),
     'C02': CaseSpec(o_c02, 'serialize each generated value, deserialize_eps from a 128-aligned (and 64 mod 128) buffer and deserialize_full the same bytes.'),
     'C07': CaseSpec(o_c07, 'layout of every zero-copy type; schema rows (real write_bytes/padding events) and byte counts for every generated value.'),
